@@ -269,3 +269,51 @@ func init() {
 			Old: "\t\t\tif err := enc.WriteToken(jsontext.String(name)); err != nil {\n\t\t\t\treturn err\n\t\t\t}\n\t\t\tif err := marshalValueAny(enc, val, mo); err != nil {", New: "\t\t\t_ = enc.WriteToken(jsontext.String(name))\n\t\t\tif err := marshalValueAny(enc, val, mo); err != nil {", Rule: "ERR-1"},
 	)
 }
+
+func init() {
+	addMutants(
+		// ---- C04: CODEC-1, FLAGSYM-1
+		Mutant{ID: "codec1-unmarshal-drops-base32hex", Props: []string{"C04"}, File: "arshal_default.go", Func: "makeBytesArshaler",
+			Old: "\t\t\t\tcase \"base32hex\":\n\t\t\t\t\tappendDecode, encodedLen = appendDecodeBase32Hex, encodedLenBase32Hex\n", New: "", Rule: "CODEC-1"},
+		Mutant{ID: "codec1-decode-url-bound-to-std", Props: []string{"C04"}, File: "arshal_default.go",
+			Old: "appendDecodeBase64URL = base64.URLEncoding.AppendDecode", New: "appendDecodeBase64URL = base64.StdEncoding.AppendDecode", Rule: "CODEC-1"},
+		Mutant{ID: "codec1-unmarshal-base32-uses-hex-alphabet", Props: []string{"C04"}, File: "arshal_default.go", Func: "makeBytesArshaler",
+			Old: "appendDecode, encodedLen = appendDecodeBase32, encodedLenBase32\n", New: "appendDecode, encodedLen = appendDecodeBase32Hex, encodedLenBase32\n", Rule: "CODEC-1"},
+		Mutant{ID: "codec1-time-unmarshal-drops-base-case", Props: []string{"C04"}, File: "arshal_time.go", Func: "durationArshaler.unmarshal",
+			Old: "\tcase 8601:\n\t\ta.td, err = parseDurationISO8601(b)\n", New: "", Rule: "CODEC-1"},
+		Mutant{ID: "codec1-float-parses-64-bits", Props: []string{"C04"}, File: "arshal_default.go", Func: "makeFloatArshaler",
+			Old: "\t\t\tfv, err := strconv.ParseFloat(string(val), bits)", New: "\t\t\tfv, err := strconv.ParseFloat(string(val), 64)", Rule: "CODEC-1"},
+		Mutant{ID: "codec1-slice-unmarshal-rejects-emitnull", Props: []string{"C04"}, File: "arshal_default.go", Func: "makeSliceArshaler",
+			Old: "\t\t\t\tcase \"emitnull\", \"emitempty\":\n\t\t\t\tdefault:\n\t\t\t\t\treturn newInvalidFormatError(dec, t)", New: "\t\t\t\tcase \"emitempty\":\n\t\t\t\tdefault:\n\t\t\t\t\treturn newInvalidFormatError(dec, t)", Rule: "CODEC-1"},
+		Mutant{ID: "flagsym-uint-unmarshal-ignores-stringify", Props: []string{"C04"}, File: "arshal_default.go", Func: "makeUintArshaler",
+			Old: "stringify := xd.Tokens.Last.NeedObjectName() || uo.Flags.Get(jsonflags.StringifyNumbers|jsonflags.StringTag)", New: "stringify := xd.Tokens.Last.NeedObjectName() || uo.Flags.Get(jsonflags.StringTag)", Rule: "FLAGSYM-1"},
+		Mutant{ID: "flagsym-duration-unmarshal-ignores-nano", Props: []string{"C04", "C09"}, File: "arshal_time.go", Func: "makeTimeArshaler",
+			Old: "\t\t\t} else if uo.Flags.Get(jsonflags.FormatDurationAsNano) {\n\t\t\t\treturn unmarshalNano(dec, va, uo)\n", New: "\t\t\t} else if uo.Flags.Get(jsonflags.FormatDurationAsNano|jsonflags.StringifyWithLegacySemantics) && !uo.Flags.Get(jsonflags.FormatDurationAsNano|jsonflags.StringTag) {\n\t\t\t\treturn unmarshalNano(dec, va, uo)\n", Rule: "FLAGSYM-1"},
+	)
+}
+
+func init() {
+	addMutants(
+		// ---- C14/C03/C08/C17: NULL-1, MERGE-1, ANYPATH-1, INTERN-1
+		Mutant{ID: "null1-slice-null-keeps-value", Props: []string{"C14"}, File: "arshal_default.go", Func: "makeSliceArshaler",
+			Old: "\t\tcase 'n':\n\t\t\tva.SetZero()\n\t\t\treturn nil\n\t\tcase '[':", New: "\t\tcase 'n':\n\t\t\treturn nil\n\t\tcase '[':", Rule: "NULL-1"},
+		Mutant{ID: "null1-int-null-conditional-on-other-flag", Props: []string{"C14"}, File: "arshal_default.go", Func: "makeIntArshaler",
+			Old: "\t\tcase 'n':\n\t\t\tif !uo.Flags.Get(jsonflags.MergeWithLegacySemantics) {\n\t\t\t\tva.SetInt(0)", New: "\t\tcase 'n':\n\t\t\tif !uo.Flags.Get(jsonflags.MergeWithLegacySemantics | jsonflags.StringifyNumbers) {\n\t\t\t\tva.SetInt(0)", Rule: "NULL-1"},
+		Mutant{ID: "merge1-slice-setlen-skipped-on-fatal-error", Props: []string{"C14"}, File: "arshal_default.go", Func: "makeSliceArshaler",
+			Old: "\t\t\t\t\tif isFatalError(err, uo.Flags) {\n\t\t\t\t\t\tva.SetLen(i)\n\t\t\t\t\t\treturn err", New: "\t\t\t\t\tif isFatalError(err, uo.Flags) {\n\t\t\t\t\t\treturn err", Rule: "MERGE-1"},
+		Mutant{ID: "merge1-map-drops-seed", Props: []string{"C14"}, File: "arshal_default.go", Func: "makeMapArshaler",
+			Old: "\t\t\t\t\tif !uo.Flags.Get(jsonflags.MergeWithLegacySemantics) {\n\t\t\t\t\t\tv.Set(v2)\n\t\t\t\t\t} else {\n\t\t\t\t\t\tv.SetZero()\n\t\t\t\t\t}", New: "\t\t\t\t\tv.SetZero()", Rule: "MERGE-1"},
+		Mutant{ID: "merge1-array-no-tail-zeroing", Props: []string{"C14"}, File: "arshal_default.go", Func: "makeArrayArshaler",
+			Old: "\t\t\tfor ; i < n; i++ {\n\t\t\t\tva.Index(i).SetZero()\n\t\t\t\terr = errArrayUnderflow\n\t\t\t}", New: "\t\t\tif i < n {\n\t\t\t\terr = errArrayUnderflow\n\t\t\t}", Rule: "MERGE-1"},
+		Mutant{ID: "anypath-unmarshal-drops-isnil", Props: []string{"C14", "C03"}, File: "arshal_default.go", Func: "makeInterfaceArshaler",
+			Old: "\t\tvar v addressableValue\n\t\tif va.IsNil() {\n\t\t\t// Optimize for the any type if there are no special options.", New: "\t\tvar v addressableValue\n\t\tif va.IsNil() || va.Elem().Kind() == reflect.Map {\n\t\t\t// Optimize for the any type if there are no special options.", Rule: "ANYPATH-1"},
+		Mutant{ID: "anypath-unmarshal-drops-fromany", Props: []string{"C03", "C17"}, File: "arshal_default.go", Func: "makeInterfaceArshaler",
+			Old: "\t\t\t\t(uo.Unmarshalers == nil || !uo.Unmarshalers.(*Unmarshalers).fromAny) {", New: "\t\t\t\ttrue {", Rule: "ANYPATH-1"},
+		Mutant{ID: "anypath-any-float32", Props: []string{"C03"}, File: "arshal_any.go", Func: "unmarshalValueAny",
+			Old: "fv, err := strconv.ParseFloat(string(val), 64)", New: "fv, err := strconv.ParseFloat(string(val), 32)", Rule: "ANYPATH-1"},
+		Mutant{ID: "anypath-object-dup-check-dropped", Props: []string{"C03", "C08"}, File: "arshal_any.go", Func: "unmarshalObjectAny",
+			Old: "\t\tif _, ok := obj[name]; ok {\n\t\t\t// TODO: Unread the object name.\n\t\t\tname := export.Decoder(dec).PreviousTokenOrValue()\n\t\t\terr := newDuplicateNameError(dec.StackPointer(), nil, dec.InputOffset()-len64(name))\n\t\t\treturn obj, err\n\t\t}\n", New: "", Rule: "ANYPATH-1"},
+		Mutant{ID: "intern-returns-cached-without-compare", Props: []string{"C03", "C18"}, File: "intern.go", Func: "makeString",
+			Old: "if s := (*c)[i]; s == string(b) {", New: "if s := (*c)[i]; len(s) == len(b) {", Rule: "INTERN-1"},
+	)
+}
